@@ -8,6 +8,8 @@ import (
 	"sort"
 	"strings"
 
+	"golang.org/x/tools/go/ssa"
+
 	"verif/ssvcheck/internal/core"
 	"verif/ssvcheck/internal/ens"
 )
@@ -254,6 +256,40 @@ func checkStorageForwarding(c *core.Ctx) int {
 			ok := node.K == "param" && atoiSafe(node.L) >= 0 && atoiSafe(node.L) < len(ta.encl.Params) && basedbKind(ta.encl.Params[atoiSafe(node.L)].Type()) != ""
 			c.Decide(ok, "C11-R5", fmt.Sprintf("%s#%d|forwards-handle", key, seen[key]), c.P.Pos(ta.instr.Pos()), "forwards the caller's handle",
 				fmt.Sprintf("%s passes %s to %s instead of the handle it was given: the operation leaves the caller's transaction", encl, clip(node.String()), ta.label))
+		}
+	}
+	// no data access may bypass the handle: inside a function that was given a handle, a read or write
+	// issued on the Database itself (not on db.Using(h) / db.UsingReader(h)) sees only committed state
+	// and writes outside the caller's transaction
+	dataMethods := map[string]bool{"Get": true, "GetMany": true, "GetAll": true, "Set": true, "SetMany": true, "Delete": true}
+	for _, pkg := range []string{ssv + "registry/storage", ssv + "operator/storage"} {
+		for _, f := range c.P.SourceFuncs(pkg) {
+			top := topFunc(f)
+			hasHandle := false
+			for _, p := range top.Params {
+				if basedbKind(p.Type()) != "" {
+					hasHandle = true
+				}
+			}
+			if !hasHandle {
+				continue
+			}
+			for _, b := range f.Blocks {
+				for _, in := range b.Instrs {
+					ci, ok := in.(ssa.CallInstruction)
+					if !ok || !ci.Common().IsInvoke() || !dataMethods[ci.Common().Method.Name()] {
+						continue
+					}
+					nt, ok := ci.Common().Value.Type().(*types.Named)
+					if !ok || nt.Obj().Pkg() == nil || nt.Obj().Pkg().Path() != ssv+"storage/basedb" {
+						continue
+					}
+					n++
+					direct := nt.Obj().Name() == "Database"
+					c.Decide(!direct, "C11-R5", enclName(f)+"|"+ci.Common().Method.Name()+"|through-the-handle", c.P.Pos(in.Pos()), "issued on "+nt.Obj().Name(),
+						enclName(f)+" was given a database handle but issues "+ci.Common().Method.Name()+" on the Database itself: the access bypasses the caller's transaction (reads miss its uncommitted writes, writes escape its rollback)")
+				}
+			}
 		}
 	}
 	return n
